@@ -15,7 +15,10 @@ from .common import enc_str
 RULE = ('port lists of 0..6 entries built from 26 templates in the three platform styles (Linux ttyACM, macOS '
         'cu.usbmodem, Windows COMn with SER=... LOCATION= or SNR=), EBB boards named/unnamed/by-id-only/by-description-only, '
         'foreign devices incl. look-alikes (product name or VID:PID not at the start, foreign SER= equal to a board name, '
-        'COM1 vs COM10 prefixes); all ordered lists of <= 3 entries over 9 core templates, then random lists; keys = for every '
+        'COM1 vs COM10 prefixes); discovery SEQUENCES on one long-lived EBB3 object (all ordered pairs of 15 representative enumerations - empty, '
+        'foreign only, description match, VID:PID only, named, unnamed - plus present/absent/present triples and random '
+        'walks; the legacy functions run on the same changing lists), every call judged; one further EBB3 object is reused '
+        'across all other lists; all ordered lists of <= 3 entries over 9 core templates, then random lists; keys = for every '
         'port its reported name, SER= tag, device name, SNR= tag (legacy) in original/lower/upper/random casing, plus unrelated '
         'keys (None, empty, prefixes, foreign names). A case is one function call; non-trivial when the list is non-empty; '
         'distinct by (function, layer, ports, key).')
@@ -126,7 +129,26 @@ def run(ctx):
         slp.comports = stub
 
     # ---- port lists ----
+    # `lists` is processed in order; `owner[i]` names the long-lived EBB3 object that ALSO runs discovery on list i
+    # (besides a fresh object): one object per explicit sequence, one global object for everything else.
     lists = [[]]
+    owner = ['global']
+    T = {t[0]: t[2] for t in TEMPLATES}
+    reps = [[], [T['foreign_ftdi'](0, 'x')], [T['mac_named'](1, 'Lab One')], [T['mac_unnamed'](1, 'x')],
+            [T['win_ser'](4, 'Bob')], [T['win_snr'](4, 'Bob')], [T['foreign_win'](0, 'x'), T['win_ser'](4, 'AXI_TWO')],
+            [T['win_ser'](2, 'Bob'), T['mac_named'](3, 'east')], [T['mac_named'](3, 'east'), T['win_ser'](2, 'Bob')],
+            [T['foreign_ftdi'](0, 'x'), T['desc_only'](1, 'Bob')], [T['id_bare'](5, 'x')],
+            [T['foreign_desc_inside'](0, 'x')], [T['linux_named'](0, 'Bobby')], [T['foreign_win'](0, 'x'), T['win_unnamed'](6, 'x')],
+            [T['linux_unnamed'](0, 'x')]]
+    seqs = [[a, b] for a in reps for b in reps]
+    seqs += [[a, [], b] for a in reps[2:6] for b in reps[1:8]]
+    for _ in range(ctx.n(150)):
+        seqs.append([rng.choice(reps) for _ in range(rng.randint(3, 6))])
+    for si, sq in enumerate(seqs):
+        for ports in sq:
+            lists.append(list(ports))
+            owner.append(('seq', si))
+    n_seq_lists = len(lists)
     core = [t for t in TEMPLATES if t[1]]
     for n in (1, 2, 3):
         for combo in itertools.product(range(len(core)), repeat=n):
@@ -140,6 +162,7 @@ def run(ctx):
             t = rng.choice(TEMPLATES)
             ports.append(t[2](j if rng.random() < 0.85 else rng.randint(0, 2), rng.choice(pool)))
         lists.append(ports)
+    owner += ['global'] * (len(lists) - len(owner))
 
     unrelated = [None, '', 'nosuch', 'COM', 'Bob', 'Bo', 'EiBotBoard', 'SER=', '(', 'east', 'usb', 'COM1', '/dev/tty', 'n/a']
 
@@ -147,7 +170,9 @@ def run(ctx):
     records = []
     lines = []
     try:
-        for ports in lists:
+        shared = {}
+        prev_ports = {}
+        for li, ports in enumerate(lists):
             as_tuple = rng.random() < 0.15
             objs = [mkobj(t, as_tuple) for t in ports]
             install(objs)
@@ -156,6 +181,18 @@ def run(ctx):
                 e3 = ebb3_serial.EBB3()
                 e3.find_first()
                 rec['firstE'] = e3.port_name
+                ow = owner[li]
+                if ow not in shared:
+                    if ow != 'global':
+                        for k in [k for k in shared if k != 'global']:     # sequences are consecutive: drop finished ones
+                            del shared[k], prev_ports[k]
+                    shared[ow] = ebb3_serial.EBB3()
+                    prev_ports[ow] = None
+                rec['prev'] = prev_ports[ow]
+                rec['prev_name'] = shared[ow].port_name
+                shared[ow].find_first()
+                rec['firstS'] = shared[ow].port_name
+                prev_ports[ow] = ports
                 rec['firstL'] = ebb_serial.findPort()
                 rec['listE'] = ebb3_serial.list_ebb_ports()
                 rec['listL'] = ebb_serial.listEBBports()
@@ -258,6 +295,13 @@ def run(ctx):
             if got != want:
                 ctx.violate(f'{fn}: not the first description match, else first VID:PID match, else None', pin,
                             got, want, key='first')
+        if rec.get('prev') is not None:
+            ctx.count(('first-again', tuple(rec['prev']), tuple(ports)), f'first-again:{how}')
+            if rec['firstS'] != want:
+                ctx.violate('find_first on an EBB3 object that already ran a discovery: not the first description match, '
+                            'else first VID:PID match, else None of the CURRENT enumeration',
+                            {'earlier_ports': [list(t) for t in rec['prev']], 'port_name_before': rec['prev_name'],
+                             'ports': [list(t) for t in ports]}, rec['firstS'], want, key='first-again')
         # ----- list -----
         wl = [o for o, t in zip(rec['objs'], ports) if is_ebb(t)] or None
         for layer, fn in (('L', 'listEBBports'), ('E', 'list_ebb_ports')):
@@ -325,6 +369,10 @@ def run(ctx):
             for w, a, b in zip(what, impl, parts[:6]):
                 if a != b:
                     ctx.disagree(w, pin, a, b)
+            if rec.get('prev') is not None and c_opt(rec['firstS']) != parts[1]:
+                ctx.disagree('find_first (object reused after an earlier discovery)',
+                             {'earlier_ports': [list(t) for t in rec['prev']], 'ports': [list(t) for t in ports]},
+                             c_opt(rec['firstS']), parts[1])
             if parts[6] != c_opt(want) or parts[7] != c_ports([t for t in ports if is_ebb(t)] or None):
                 raise common.Infra(f'Lean Spec and Python oracle differ on {pin}')
             for qi, ((k, origin), (rL, rE, err)) in enumerate(zip(rec['keys'], rec['finds'])):
